@@ -32,7 +32,25 @@ fn one(algo: &str, p: &[u8], texts: &[Vec<u8>]) -> Result<(), String> {
     }).and_then(|r| r)
 }
 
+/// big patterns (the three matchers without a length limit): state numbers / tables beyond 16 bits.  "rand:n:seed" = n pseudo-random ACGT
+/// symbols, occurring twice in the text; "per:n" = (ACG)^n, overlapping occurrences in (ACG)^(n+10)
+fn big_case(gen: &str) -> (Vec<u8>, Vec<Vec<u8>>) {
+    let f: Vec<&str> = gen.split(':').collect();
+    if f[0] == "per" {
+        let n: usize = f[1].parse().unwrap();
+        let p: Vec<u8> = (0..3 * n).map(|i| b"ACG"[i % 3]).collect();
+        let t: Vec<u8> = (0..3 * (n + 10)).map(|i| b"ACG"[i % 3]).collect();
+        (p, vec![t])
+    } else {
+        let n: usize = f[1].parse().unwrap();
+        let rng = Rng::new(f[2].parse().unwrap());
+        let p = rng.bytes(n, b"ACGT");
+        let mut t = rng.bytes(37, b"ACGT"); t.extend(&p); t.extend(rng.bytes(11, b"ACGT")); t.extend(&p[..n / 2]); t.extend(&p); t.push(b'A');
+        (p, vec![t, b"ACGT".to_vec(), vec![]])
+    }
+}
 pub fn run(input: &str) -> Result<(), String> {
+    if let Some(g) = field(input, "gen") { let (p, texts) = big_case(g); return one(field(input, "algo").unwrap_or("bom"), &p, &texts); }
     let p = unhex(field(input, "p").unwrap_or(""));
     let texts: Vec<Vec<u8>> = field(input, "t").unwrap_or("").split(',').map(unhex).collect();
     one(field(input, "algo").unwrap_or("kmp"), &p, &texts)
@@ -44,6 +62,13 @@ fn fmt(algo: &str, p: &[u8], texts: &[Vec<u8>]) -> String {
 
 pub fn search(seed: u64, budget: &Budget, thorough: bool) -> (u64, Option<(String, String)>) {
     let mut tried = 0u64;
+    for gen in [format!("rand:70000:{}", seed), "per:23000".to_string()].iter() {
+        let (p, texts) = big_case(gen);
+        for algo in ["bom", "kmp", "horspool"].iter() {
+            tried += 1;
+            if let Err(e) = one(algo, &p, &texts) { return (tried, Some((format!("algo={} gen={}", algo, gen), e))); }
+        }
+    }
     // exhaustive small scope over a binary alphabet: |p| <= 4, |t| <= 7
     for pl in 1..=4usize {
         for pb in 0..(1u32 << pl) {
